@@ -49,6 +49,8 @@ pub struct Case {
     /// continue after an error item that was produced after its driver call was made
     pub continue_after_call_errors: bool,
     pub max_depth: usize,
+    /// call vars() after every next()
+    pub collect_vars: bool,
 }
 
 impl Case {
@@ -59,7 +61,7 @@ impl Case {
             Err(e) => (None, Some(e)),
         };
         let mid: Answer = sigs.iter().filter(|s| s.is_out()).map(|s| (s.name.clone(), V::Num(3))).collect();
-        Case { name: name.into(), prog, text, sigs, ov, tc, load_error, init_menu, menu, mid: Step::Ans(mid), w_menu: vec![], extra_known: vec![], dev_budget: 0, continue_after_call_errors: false, max_depth }
+        Case { name: name.into(), prog, text, sigs, ov, tc, load_error, init_menu, menu, mid: Step::Ans(mid), w_menu: vec![], extra_known: vec![], dev_budget: 0, continue_after_call_errors: false, max_depth, collect_vars: false }
     }
 }
 
@@ -237,6 +239,7 @@ impl Model for E1Model {
         let wanted_after = if r.end == RefEnd::Done { nsteps.saturating_sub(r.items.len() + 1) } else { 0 };
         let mut opts = RunOpts::new(nsteps - wanted_after);
         opts.collect_key = true;
+        opts.collect_vars = case.collect_vars;
         opts.extra_known = case.extra_known.clone();
         opts.continue_after_error = case.continue_after_call_errors;
         opts.after_end = wanted_after;
